@@ -297,7 +297,7 @@ pub fn for_each_program(cfg: &Cfg, rep: &mut Report, spec: &StreamSpec, mut f: i
 }
 
 fn mentioned_guess(pat: &str) -> Vec<u32> {
-    let mut v: Vec<u32> = pat.chars().filter(|c| c.is_alphanumeric() || (*c as u32) >= 0x80).map(|c| c as u32).collect();
+    let mut v: Vec<u32> = pat.chars().filter(|c| c.is_alphanumeric() || (*c as u32) >= 0x80 || ((*c as u32) < 0x20 && *c != '\n') || *c == '\u{7f}').map(|c| c as u32).collect();
     v.sort_unstable();
     v.dedup();
     v.truncate(4);
